@@ -715,7 +715,8 @@ def run(c):
     # every stream first runs the real code and collects its model requests; the Lean driver is started once for all of them
     gens = []
     if on('tables'): gens.append(('tables', stream_tables(c, tables, extract_err, quick)))
-    if on('rules'): gens.append(('rules', stream_rules(c, quick)))
+    pool = reference_pool(c, quick) if on('rules') or on('rules-tuple') else None
+    if on('rules'): gens.append(('rules', stream_rules(c, quick, pool)))
     if on('points'): gens.append(('points classes', stream_points_model(c, quick)))
     if on('samples'): gens.append(('samples', stream_samples(c, 70 if quick else 1000)))
     pending = []
@@ -726,6 +727,7 @@ def run(c):
         except StopIteration:
             pass
         c.log('%s: real code done' % name)
+    if on('rules-tuple'): stream_rules_tuple(c, quick, pool); c.log('rules with a degree per direction done')
     if on('pointsseq'): stream_pointsseq(c, quick); c.log('pointsseq done')
     if on('topologies'): stream_gauss_topologies(c, quick); c.log('topologies done')
     answers = c.model([r for name, g, reqs in pending for r in reqs])
@@ -908,9 +910,9 @@ def is_tensorial(ref):
     return isinstance(ref, element.TensorReference) or (isinstance(ref, element.LineReference))
 
 
-def stream_rules(c, quick):
+def stream_rules(c, quick, pool=None):
     from nutils import element
-    pool = reference_pool(c, quick)
+    if pool is None: pool = reference_pool(c, quick)
     nbad = 0; nrules = 0
     cache = {}
     for name, ref in pool:
@@ -1023,6 +1025,171 @@ def tensor_factors(ref):
     if isinstance(ref, element.TensorReference):
         return tensor_factors(ref.ref1) + tensor_factors(ref.ref2)
     return [ref]
+
+
+# ---------------------------------------------------------------- rules with a degree PER DIRECTION (tuple degrees)
+#
+# `getpoints(scheme, degree)` accepts a tuple: a TensorReference hands entry k to factor k of its (right-nested) spine, a
+# simplex that receives a tuple (the triangulation of a trimmed tensor element: MosaicReference, or a child that is a mosaic)
+# must use a scheme of total degree sum(degree), WithChildrenReference hands the tuple on to every child.  Specification: the
+# Gauss rule of degree (d_0, .., d_k) integrates every monomial exactly whose total degree inside factor k is <= d_k, on the
+# element and on whatever remains of it after trimming / refinement; points inside, weights sum to the volume.
+
+def base_reference(ref):
+    while hasattr(ref, 'baseref'):
+        ref = ref.baseref
+    return ref
+
+
+def ref_spine(ref):
+    """the factors a tuple degree is distributed over: [ref1, ref2.ref1, ..., last] of the (right-nested) tensor structure"""
+    from nutils import element
+    out = []
+    while isinstance(ref, element.TensorReference):
+        out.append(ref.ref1); ref = ref.ref2
+    return out + [ref]
+
+
+def tuple_blocks(ref):
+    """block sizes (numbers of variables) a tuple degree refers to, or None if tuple degrees have no meaning for this reference.
+    Tensor base: one block per spine factor.  Simplex base of dimension n >= 2: n blocks of one variable (the simplex receives
+    per-direction degrees exactly like the triangulation of a trimmed square / cube does)."""
+    from nutils import element
+    base = base_reference(ref)
+    spine = ref_spine(base)
+    if len(spine) >= 2:
+        if any(isinstance(f, element.TensorReference) or not isinstance(f, element.SimplexReference) for f in spine): return None
+        return [f.ndims for f in spine]
+    if isinstance(base, element.SimplexReference) and base.ndims >= 2:
+        return [1] * base.ndims
+    return None
+
+
+def tuple_monomials(blocks, degree):
+    """all exponent tuples with total degree <= degree[k] inside block k"""
+    per = [monomials(m, d) for m, d in zip(blocks, degree)]
+    return [sum(parts, ()) for parts in itertools.product(*per)]
+
+
+def directly_trimmed_references(c, n):
+    """references cut by a random linear level set through Reference.trim (mosaics, children that are mosaics), on square, cube, prism,
+    line x triangle and triangle bases"""
+    from nutils import element
+    rng = c.rng
+    line = element.LineReference(); tri = element.TriangleReference()
+    out = []
+    for _ in range(n):
+        name, base = rng.choice([('square', line**2), ('square', line**2), ('square', line**2), ('cube', line**3), ('prism', tri * line), ('line*triangle', line * tri), ('triangle', tri)])
+        maxrefine = rng.choice([0, 0, 1, 1, 2]) if base.ndims == 2 else rng.choice([0, 0, 1])
+        coef = numpy.array([rng.choice([-2, -1, 1, 1, 2, 3]) for _ in range(base.ndims)], dtype=float)
+        verts = numpy.asarray(base.getpoints('vertex', maxrefine).coords, dtype=float)
+        vals = verts @ coef
+        cut = rng.choice([.25, .5, .75]) * (vals.max() - vals.min()) + vals.min() + rng.choice([0, 1 / 16, -1 / 16])
+        levels = (vals - cut) * rng.choice([1, -1])
+        try:
+            with warnings.catch_warnings():
+                warnings.simplefilter('ignore')
+                ref = base.trim(levels, maxrefine=maxrefine, ndivisions=8)
+        except Exception as e:
+            c.count('ref-trim-raises:' + type(e).__name__); continue
+        if not ref or ref is base:
+            c.count('ref-trim-trivial'); continue
+        out.append(('%s.trim(%s,maxrefine%d)' % (name, type(ref).__name__, maxrefine), ref))
+    return out
+
+
+def contains_mosaic(ref):
+    from nutils import element
+    if isinstance(ref, element.MosaicReference): return True
+    if isinstance(ref, element.WithChildrenReference): return any(contains_mosaic(cr) for cr in ref.child_refs if cr)
+    return False
+
+
+def stream_rules_tuple(c, quick, pool):
+    from nutils import element
+    rng = c.rng
+    pool = [(n, r) for n, r in pool if r.ndims >= 2] + directly_trimmed_references(c, 10 if quick else 80)
+    nbad = 0; nrules = 0; ncut = 0
+    cache = {}
+    for name, ref in pool:
+        blocks = tuple_blocks(ref)
+        if blocks is None:
+            c.count('rule-tuple:no-structure'); continue
+        try:
+            shape = shape_of(ref)
+        except Exception as e:
+            c.count('shape-unavailable:' + type(e).__name__); continue
+        vol = sum(monomial_affine_integral(S, (0,) * ref.ndims) for S in shape)
+        base_kind = name.split('(')[0].split('.')[0] if not isinstance(ref, (element.MosaicReference, element.WithChildrenReference)) else type(ref).__name__
+        cut = contains_mosaic(ref)
+        maxdeg = max_gauss_degree(ref)
+        if isinstance(base_reference(ref), element.SimplexReference) and maxdeg is None: maxdeg = 6
+        budget = maxdeg if maxdeg is not None else 4 * len(blocks)
+        if quick and ref.ndims == 3: budget = min(budget, 4)
+        def gauss_tuple(nonzero):
+            for _ in range(50):
+                d = tuple(rng.randint(1 if nonzero else 0, 5) for _ in blocks)
+                if sum(d) <= budget and (maxdeg is not None or max(d) <= 6): return d
+            return tuple(1 if nonzero and i < budget else 0 for i in range(len(blocks)))
+        degrees = {gauss_tuple(True) for _ in range(2 if quick else 4)} | {gauss_tuple(False)}
+        schemes = [('gauss', d) for d in sorted(degrees)]
+        pure_tensor = isinstance(ref, element.TensorReference)
+        if pure_tensor or rng.random() < .3:
+            spine = ref_spine(base_reference(ref))
+            if all(isinstance(f, (element.LineReference, element.TriangleReference)) for f in spine):
+                schemes.append(('uniform', tuple(rng.randint(1, 3) for _ in blocks)))
+            schemes.append(('bezier', tuple(rng.randint(2, 4) for _ in blocks)))
+        for scheme, degree in schemes:
+            with warnings.catch_warnings():
+                warnings.simplefilter('ignore')
+                try:
+                    P = ref.getpoints(scheme, degree)
+                    co = numpy.asarray(P.coords, dtype=float); we = numpy.asarray(P.weights, dtype=float)
+                except Exception as e:
+                    if scheme != 'gauss' and not pure_tensor:
+                        # uniform / bezier take a tuple only where a TensorReference splits it; elsewhere (mosaics, children, simplices) it is not defined
+                        c.count('rule-tuple-unsupported:%s:%s' % (base_kind, scheme)); continue
+                    c.count('getpoints-raises:%s:%s' % (scheme, type(e).__name__))
+                    nbad += 1
+                    c.failing_input('getpoints-raises:%s' % scheme, '%s.getpoints(%r, %r) raises %s' % (name, scheme, degree, type(e).__name__), dict(reference=name, scheme=scheme, degree=list(degree), error=repr(e)))
+                    continue
+            nrules += 1; ncut += cut and scheme == 'gauss'
+            c.case(('rule-tuple', name, scheme, degree, len(shape))); c.count('rule-tuple:%s:%s' % (base_kind, scheme))
+            if scheme == 'gauss':
+                c.count('rule-tuple-gauss:%s:%s' % ('cut' if cut else 'uncut', 'mixed-degrees' if sum(1 for d in degree if d) >= 2 else 'one-direction'))
+            replay = dict(reference=name, repr=str(ref), scheme=scheme, degree=list(degree), npoints=int(P.npoints))
+            if co.shape != (P.npoints, ref.ndims) or we.shape != (P.npoints,):
+                nbad += 1; c.failing_input('rule-shape:%s' % scheme, 'coords/weights shape does not match npoints', replay); continue
+            fco = ffrac(co) if len(co) else []
+            wsum = sum(Fraction(float(w)) for w in we)
+            if abs(wsum - vol) > EPS_TABLE:
+                nbad += 1
+                c.failing_input('rule-volume:%s' % scheme, '%s %s%r: weights sum to %.15g, volume is %.15g' % (name, scheme, degree, float(wsum), float(vol)), dict(replay, wsum=float(wsum), volume=float(vol)))
+                continue
+            out = [p for p in fco if not inside_shape(shape, p)]
+            if out:
+                nbad += 1
+                c.failing_input('rule-outside:%s' % scheme, '%s %s%r: point %s outside the element' % (name, scheme, degree, [float(x) for x in out[0]]), dict(replay, point=[float(x) for x in out[0]]))
+                continue
+            if scheme != 'gauss': continue
+            exps = tuple_monomials(blocks, degree)
+            o = numpy.cumsum([0] + blocks)
+            top = [e for e in exps if all(sum(e[o[k]:o[k + 1]]) == d for k, d in enumerate(degree))]      # the highest monomials the degree promises
+            limit = 20 if quick else 60
+            if len(exps) > limit:
+                exps = rng.sample(top, min(len(top), 6)) + rng.sample(exps, limit - 6)
+            worst = (Fraction(0), None)
+            for e in exps:
+                key = (id(ref), e)
+                if key not in cache: cache[key] = sum(monomial_affine_integral(S, e) for S in shape)
+                d = abs(rule_monomial(fco, we, e) - cache[key])
+                if d > worst[0]: worst = (d, e)
+            if worst[0] > EPS_TABLE:
+                nbad += 1
+                c.failing_input('gauss-inexact:%s' % base_kind, '%s gauss %r (degree per direction): monomial %s integrated with error %.3e' % (name, degree, worst[1], float(worst[0])),
+                                dict(replay, monomial=worst[1], error=float(worst[0])))
+    c.obligation('oracle:rules-tuple-degree', nbad == 0, 'oracle', '%d rules with a degree per direction on %d references (%d Gauss rules on cut cells): weights sum to volume, points inside, '
+                 'Gauss exact for every monomial within the degree of each direction (exact rationals, 1e-13)' % (nrules, len(pool), ncut))
 
 
 # ---------------------------------------------------------------- TensorPoints / TransformPoints / ConcatPoints vs the Lean rules (integer weights)
@@ -1482,10 +1649,10 @@ def stream_samples(c, N):
 def stream_gauss_topologies(c, quick):
     from nutils import mesh, function
     rng = c.rng
-    N = 12 if quick else 120
+    N = 18 if quick else 160
     nbad = 0; n = 0
     for _ in range(N):
-        kind = rng.choice(['line', 'rect', 'tri', 'tet', 'hier', 'trim', 'mixed', 'cube'])
+        kind = rng.choice(['line', 'rect', 'tri', 'tet', 'hier', 'trim', 'trim', 'mixed', 'cube'])
         try:
             with warnings.catch_warnings():
                 warnings.simplefilter('ignore')
@@ -1494,27 +1661,42 @@ def stream_gauss_topologies(c, quick):
             c.count('make_space-raises:' + type(e).__name__); continue
         nd = sp.ndims
         maxdeg = {'tri': 6, 'tet': 7, 'mixed': 6, 'trim': 6}.get(kind, 8)
-        degree = rng.randint(0, maxdeg if not (quick and nd == 3) else 4)
-        if kind in ('line', 'rect', 'cube', 'hier'):
-            e = tuple(rng.randint(0, degree) for _ in range(nd))       # degree per variable on tensor elements
+        spelling = 'degree'
+        if nd >= 2 and rng.random() < .45:
+            # a degree per direction, in each of the three spellings the API accepts: exact for x^e with e_i <= degree_i (cut cells and
+            # simplices receive the whole tuple and must use its sum)
+            cap = maxdeg if kind in ('tri', 'tet', 'mixed', 'trim') else 12
+            if quick and nd == 3: cap = min(cap, 5)
+            while True:
+                degree = tuple(rng.randint(0, 4) for _ in range(nd))
+                if sum(degree) <= cap: break
+            e = tuple(rng.randint(0, d) if rng.random() < .5 else d for d in degree)
+            spelling = rng.choice(['degree-tuple', 'sample-tuple', 'legacy-string'])
         else:
-            e = rng.choice(monomials(nd, degree))
+            degree = rng.randint(0, maxdeg if not (quick and nd == 3) else 4)
+            if kind in ('line', 'rect', 'cube', 'hier'):
+                e = tuple(rng.randint(0, degree) for _ in range(nd))       # degree per variable on tensor elements
+            else:
+                e = rng.choice(monomials(nd, degree))
         f = functools.reduce(lambda a, b: a * b, [sp.geom[i] ** a for i, a in enumerate(e)], 1.) * function.J(sp.geom)
         try:
             with warnings.catch_warnings():
                 warnings.simplefilter('ignore')
-                got = float(sp.topo.integrate(f, degree=degree))
+                if spelling == 'sample-tuple': got = float(sp.topo.sample('gauss', degree).integrate(f))
+                elif spelling == 'legacy-string': got = float(sp.topo.integrate(f, ischeme='gauss' + ','.join(map(str, degree))))
+                else: got = float(sp.topo.integrate(f, degree=degree))
                 want = exact_topology_integral(sp, e)
         except Exception as ex:
             c.count('gauss-topology-raises:' + type(ex).__name__)
             continue
+        if spelling != 'degree': c.count('gauss-topology-tuple:%s:%s' % (kind, spelling))
         n += 1
         c.case(('gauss-topo', kind, degree, e)); c.count('gauss-topology:' + kind)
         dev = abs(Fraction(got) - want)
         scale = max(Fraction(1), abs(want))
         if dev > Fraction(1, 10**9) * scale:
             nbad += 1
-            c.failing_input('gauss-topology-inexact:' + kind, '%s topology: integral of x^%s with gauss degree %d is %.15g, exact %.15g' % (kind, e, degree, got, float(want)), dict(kind=kind, degree=degree, monomial=e, got=got, want=float(want)))
+            c.failing_input('gauss-topology-inexact:' + kind, '%s topology: integral of x^%s with gauss degree %r (%s) is %.15g, exact %.15g' % (kind, e, degree, spelling, got, float(want)), dict(kind=kind, degree=degree, spelling=spelling, monomial=e, got=got, want=float(want)))
         elif dev > Fraction(1, 10**12) * scale:
             nbad += 1
             c.broken_no_input('explore:gauss-topology', '%s topology: deviation %.3e between 1e-12 and 1e-9' % (kind, float(dev)), dict(kind=kind, degree=degree, monomial=e, got=got, want=float(want)))
